@@ -373,7 +373,57 @@ class ExprMixin:
     def ev_DictComp(self, e):
         return self._comp(e, "dict", ast.Tuple(elts=[e.key, e.value], ctx=ast.Load()))
 
+    def _comp_unrolled(self, e, kind, elt):
+        """comprehension over one iterable, unrolled like a for loop (cfg.unroll elements, `iter` decisions): the result is a
+        list of known length whose elements were each evaluated on their own -- needed when the element expression branches
+        (an inlined callee) and a rule evaluates the outcome per element"""
+        fr = self.frames[-1]
+        saved = dict(fr.env)
+        g = e.generators[0]
+        it0 = self.ev(g.iter)
+        it = self.iterate_value(it0, g.iter)
+        site = self.here(e)
+        loopid = (site, self.fresh(e))
+        known = None
+        if it.t[0] in ("tuple", "list", "set", "gen") and not any(x[0] == "star" for x in it.t[1]):
+            known = len(it.t[1])
+        out = []
+        k = 0
+        try:
+            while True:
+                if known is not None:
+                    if k >= known:
+                        break
+                else:
+                    if k >= self.cfg.unroll:
+                        break
+                    if not self.decide(("iter", loopid, k)):
+                        break
+                el = self.iter_elem(it, k, g.iter)
+                self.bind_target(g.target, el)
+                fr.loop.append(("for", site, k))
+                try:
+                    keep = True
+                    for c in g.ifs:
+                        if not self.truth(self.ev(c)):
+                            keep = False
+                            break
+                    if keep:
+                        out.append(self.ev(elt))
+                finally:
+                    fr.loop.pop()
+                k += 1
+        finally:
+            fr.env = saved
+        self._remember(out + [it0])
+        tys = set()
+        for v in out:
+            tys |= set(v.ty)
+        return V(("list", tuple(v.t for v in out)), [py("list")] + [("elemty", t) for t in tys], self._deps(out + [it0]))
+
     def _comp(self, e, kind, elt):
+        if getattr(self.cfg, "unroll_comps", False) and kind in ("list", "gen") and len(e.generators) == 1:
+            return self._comp_unrolled(e, kind, elt)
         fr = self.frames[-1]
         saved = dict(fr.env)
         iters = []
